@@ -177,6 +177,8 @@ pub fn analyze(sc: &StreamScenario, out: &StreamOutcome) -> Analysis {
     let mut frames_in_last_read: usize;
     let mut wire_broken = false; // after the first outgoing mismatch stop classifying bytes
     let mut min_off = usize::MAX;
+    // accepted by the write half, not yet handed to the peer (buffered link)
+    let mut staged = 0usize;
     // keep-alive frame whose reply write failed: the implementation may drop it or deliver it later
     let mut pending_skip: Option<usize> = None;
 
@@ -263,6 +265,21 @@ pub fn analyze(sc: &StreamScenario, out: &StreamOutcome) -> Analysis {
                 if took < off {
                     facts.fault("short_write");
                 }
+                staged += took;
+                sig.u64(5);
+                sig.u64((*took as u64 + 1).ilog2() as u64);
+                sig.u64((took < off) as u64);
+            },
+            Ev::FlushPending => {
+                facts.fault("flush_pending");
+                sig.u64(14);
+            },
+            Ev::Wire { n } => {
+                let took = n;
+                staged = staged.saturating_sub(*n);
+                if sc.buffered {
+                    facts.probe("buffered_bytes_flushed");
+                }
                 let bytes = &out.out[out_len..out_len + took];
                 if !wire_broken {
                     let in_write = cur_op.map(&is_write_op).unwrap_or(false);
@@ -335,9 +352,6 @@ pub fn analyze(sc: &StreamScenario, out: &StreamOutcome) -> Analysis {
                     }
                 }
                 out_len += took;
-                sig.u64(5);
-                sig.u64((*took as u64 + 1).ilog2() as u64);
-                sig.u64((took < off) as u64);
             },
             Ev::WPending { .. } => {
                 facts.fault("write_pending");
@@ -396,6 +410,10 @@ pub fn analyze(sc: &StreamScenario, out: &StreamOutcome) -> Analysis {
                             };
                             break;
                         },
+                        Ev::FlushPending => {
+                            kind = "cancel_in_reply_flush";
+                            break;
+                        },
                         Ev::Clock { .. } => continue,
                         _ => {
                             kind = "cancel_other";
@@ -433,6 +451,13 @@ pub fn analyze(sc: &StreamScenario, out: &StreamOutcome) -> Analysis {
                     match res {
                         AppRes::Done => {
                             a_done_ops += 1;
+                            if !wire_broken && staged > 0 {
+                                vio.push(v(
+                                    "wire.unflushed",
+                                    format!("op {}: write returned Ok while {} accepted bytes still sit in the transport's buffer (never flushed)", op, staged),
+                                ));
+                                wire_broken = true;
+                            }
                             if !wire_broken && a_off != e.len() {
                                 vio.push(v(
                                     "wire.write_incomplete",
@@ -520,6 +545,13 @@ pub fn analyze(sc: &StreamScenario, out: &StreamOutcome) -> Analysis {
                                 } else {
                                     if let Expect::Pkt { keepalive: true, .. } = exp {
                                         ka_returned += 1;
+                                        if !wire_broken && staged > 0 {
+                                            vio.push(v(
+                                                "wire.unflushed",
+                                                format!("keep-alive #{} handed to the caller while {} bytes of outgoing data still sit unflushed in the transport's buffer", ka_returned + 0, staged),
+                                            ));
+                                            wire_broken = true;
+                                        }
                                         if !wire_broken && p_off / 4 < ka_returned {
                                             vio.push(v(
                                                 if p_off % 4 != 0 { "wire.partial_pong_at_return" } else { "pong.missing_at_return" },
